@@ -252,17 +252,15 @@ def build_tasks(run, quick):
 
 def _classify(case, res):
     """Classes of a case whose final tree has surviving native nodes.  Each surviving node must be attributable:
-    an IfExp lying inside the arguments of an `ag__.if_exp(...)` call, in a program that has a conditional expression nested
-    in another (Lean driver, on the ORIGINAL function) -> ifexp_nested_in_ifexp_branch; a Call lying inside a parameter
+    a Call lying inside a parameter
     annotation, in a program with a call in a parameter annotation -> call_in_parameter_annotation; a Call lying inside the
     options argument of `ag__.for_stmt/while_stmt`, in a program with a call inside directive arguments ->
     call_in_loop_directive_argument.  Anything else: None (a new violation)."""
     in_ifexp, in_ann, in_opts = [set(x) for x in case.get('regions', [[], [], []])]
     classes = set()
     for kind, i, _ in case['off']:
-        if kind == 'IfExp' and i in in_ifexp and case['nested']:
-            classes.add(CLS_IFEXP)
-        elif kind == 'Call' and i in in_ann and case.get('anncalls'):
+        # (a surviving IfExp is no longer attributable: C04-ifexp-nested was fixed by 33af8cf; a recurrence is a violation)
+        if kind == 'Call' and i in in_ann and case.get('anncalls'):
             classes.add(CLS_ANNOT)
         elif kind == 'Call' and i in in_opts and case['dircalls']:
             classes.add(CLS_DIRECTIVE)
@@ -390,7 +388,7 @@ def check(run, only_corpus=None):
 
     dis_by_op, npass = {}, {}
     conv_errors = {}
-    off_cases, known_hits = [], {CLS_IFEXP: 0, CLS_DIRECTIVE: 0, CLS_ANNOT: 0}
+    off_cases, known_hits = [], {CLS_DIRECTIVE: 0, CLS_ANNOT: 0}
     checked_final = 0
     dyn_stats = {'runs': 0, 'comparable': 0, 'exact_all_kinds': 0, 'instr_diverged': 0, 'by_kind_ops': dict.fromkeys(dyn.KINDS, 0),
                  'by_kind_orig': dict.fromkeys(dyn.KINDS, 0)}
@@ -453,8 +451,6 @@ def check(run, only_corpus=None):
                     if bad:
                         # attribute: nested ifexp / directive-argument calls are the known findings
                         cls = None
-                        if k == 'ifexp' and c < o and case['nested']:
-                            cls = CLS_IFEXP
                         if k == 'call' and c < o and case['dircalls']:
                             cls = CLS_DIRECTIVE
                         if k == 'call' and c < o and case.get('anncalls'):
